@@ -84,17 +84,22 @@ def exchangeOutcomes (cf : MG Var) (outcomes : Event) (cond : Var) (val : Iv) : 
 
 /-! ### `Expression.conditional` (dsl.py:702-718, 864-878) -/
 
+mutual
 /-- base names of the NON-`Intervention` variables `expression._iter_variables()` yields: the event variables of every
 leaf and the ranges of every `Sum` (the subscripts are `Intervention` objects, skipped by both `conditional` overloads
 since `fix:` f502ca2) -/
 def exprNames : Expr → List Name
   | .prob _ c p => ((c ++ p).filter (fun v => !v.isIv)).map (·.name)
-  | .prod fs => fs.flatMap exprNames
+  | .prod fs => exprNamesList fs
   | .sum e r => exprNames e ++ (r.filter (fun v => !v.isIv)).map (·.name)
   | .frac n d => exprNames n ++ exprNames d
   | .one => []
   | .zero => []
   | .q d c => ((c ++ d).filter (fun v => !v.isIv)).map (·.name)
+def exprNamesList : List Expr → List Name
+  | [] => []
+  | e :: es => exprNames e ++ exprNamesList es
+end
 
 /-- `self / expression` for the cases IDC* can produce (`self` is an ID* estimand, never a `Fraction`):
 `Zero.__truediv__` raises `ZeroDivisionError` on `Zero`; `Fraction.__post_init__` likewise -/
